@@ -85,6 +85,25 @@ func probeEndFromLogout(srv *smtp.Server, be *backend, ending string) string {
 	c.Write([]byte("HELO x\r\n"))
 	c.Read(buf)
 	outer := make(chan struct{})
+	if ending == "quit" {
+		// the connection ends by itself and its Logout is the first to end the server: that Close returns nil, Serve returns
+		c.Write([]byte("QUIT\r\n"))
+		c.Read(buf)
+		select {
+		case e := <-inner:
+			if e != nil {
+				return "returned=0;lclosed=0;inner=" + e.Error()
+			}
+		case <-time.After(1500 * time.Millisecond):
+			return "returned=0;lclosed=0"
+		}
+		select {
+		case <-ret:
+			return "returned=1;lclosed=1"
+		case <-time.After(1500 * time.Millisecond):
+			return "returned=0;lclosed=1"
+		}
+	}
 	go func() {
 		if ending == "shutdown" {
 			ctx, cancel := context.WithTimeout(context.Background(), 500*time.Millisecond)
